@@ -7,3 +7,20 @@ from .. import schemabind as B, schemagen as G  # noqa
 # G.UNIONS[(cls, field)] = [class names]                   candidate classes of a union field
 # G.FIELD_POOL[(cls, field)] = [abstract values] | f(ver)  values of a field when the kind's pool does not fit
 # G.HOOKS[cls] = lambda gen, val, ver, depth: val          consistency between fields of a generated value
+
+from kmip.core import attributes, enums, misc, objects, primitives  # noqa: E402
+
+T = enums.Tags
+
+# MAC payloads take primitive objects
+B.WRAP[("MACRequestPayload", "unique_identifier")] = lambda v: attributes.UniqueIdentifier(v)
+B.WRAP[("MACRequestPayload", "data")] = lambda v: objects.Data(v)
+B.WRAP[("MACResponsePayload", "unique_identifier")] = lambda v: attributes.UniqueIdentifier(v)
+B.WRAP[("MACResponsePayload", "mac_data")] = lambda v: objects.MACData(v)
+
+# RekeyKeyPair request takes primitive objects
+B.WRAP[("RekeyKeyPairRequestPayload", "private_key_uuid")] = lambda v: attributes.PrivateKeyUniqueIdentifier(v)
+B.WRAP[("RekeyKeyPairRequestPayload", "offset")] = lambda v: misc.Offset(v)
+# RekeyKeyPair response: constructor keywords *_uuid (plain strings), properties *_unique_identifier
+B.KW[("RekeyKeyPairResponsePayload", "private_key_unique_identifier")] = "private_key_uuid"
+B.KW[("RekeyKeyPairResponsePayload", "public_key_unique_identifier")] = "public_key_uuid"
